@@ -188,6 +188,23 @@ def run_prop(chk: Check, which: str) -> None:
                         chk.evaluations += 1
                         chk.nontrivial.add(json.dumps(ep.to_json(), sort_keys=True))
                         score_c07(chk, ep, res)
+    if which in ("C07", "C09"):
+        # more callers than the send buffer holds (32), behind a command whose echoes are lost: the surplus is refused with a
+        # protocol error, everybody is answered, the sender comes to rest
+        for n_calls, spread in ((34, 0.0), (40, 0.0), (36, 0.4), (48, 2.0)):
+            ep = qos.Episode()
+            ep.mode = False
+            plain = [i for i in range(len(qos.POOL)) if qos.is_plain(i)]
+            ep.calls = [{"t": round(spread * k / n_calls, 4), "cmd": plain[k % len(plain)], "prio": (0, 2, -2)[k % 3], "max_retries": 1,
+                         "timeout": 3.0 if k % 5 else 20.0, "wfr": None} for k in range(n_calls)]
+            for c in plain:
+                for nn in range(1, 12):
+                    ep.tx[(c, nn)] = {"echo": None if (c == plain[0] and nn <= 3) else 0.02, "reply": 0.05, "dup": False, "fail": False}
+            res = qos.run_episode(ep)
+            chk.evaluations += 1
+            chk.nontrivial.add(json.dumps(ep.to_json(), sort_keys=True))
+            (score_c07 if which == "C07" else score_c09)(chk, ep, res)
+            chk.count("flood.refused", sum(1 for o in res.outcomes.values() if o[1] == "err"))
     if which == "C08":
         # long queues of mixed priorities behind a command whose echoes are lost, callers giving up while queued, late arrivals
         for k in range(6000 if thorough else 500):
